@@ -291,7 +291,7 @@ class Gen:
             t = rng.choice(self.types)
             name = rng.choice(['x', 'y', 'x:1', None, f'n{len(w.assets)}', f'n{len(w.assets)}'])
             given = [(d, rng.choice([0.0, 1.0, 0.5])) for d in MG.defenses_of(w.lg, t) if rng.random() < 0.4]
-            extras = rng.choice([{}, {}, {'k': 1}])
+            extras = rng.choice([{}, {}, {'k': 1}, {'flag': True, 'off': False, 'none': None, 'nest': {'b': [True, 'yes', 'no']}}])
             self.do(('new_asset', t, name, given, extras, full_defs(w, t, given)))
             h = len(w.assets) - 1
             aid = None if rng.random() < 0.6 else rng.choice([0, 1, 2, 5, -1, -3, 7] + [int(a.id) for a in w.m.assets][:2])
@@ -331,7 +331,7 @@ class Gen:
             if h >= 0:
                 self.do(('remove_from_assoc', h, c))
         elif r < 0.66 and w.m.associations:
-            self.do(('set_assoc_extras', w.ch(rng.choice(w.m.associations)), rng.choice([{'k': 2}, {'p': {'q': [1, 2]}}])))
+            self.do(('set_assoc_extras', w.ch(rng.choice(w.m.associations)), rng.choice([{'k': 2}, {'p': {'q': [1, 2]}}, {'on': True, 'n': None, 'l': [False, 'true']}])))
         elif r < 0.72:
             self.do(('new_att', rng.choice([None, 'eve', ''])))
             self.do(('add_att', len(w.atts) - 1, rng.choice([None, None, 0, 4])))
